@@ -142,8 +142,14 @@ class AbstractAst:
             parser._listeners = [self.parserErrorListenerType()]
             if not isinstance(parser._listeners[0], ErrorListener):
                 raise RTAMTException('{} is not ANTRL4 ErrorListener'.format(parser._listeners[0].__class__.__name__))
-        ctx = parser.specification_file()
-        self.visit(ctx.specification())
+        try:
+            ctx = parser.specification_file()
+            self.visit(ctx.specification())
+        except RecursionError:
+            raise RTAMTException('The specification is nested too deeply to be parsed')
+        except (OverflowError, ValueError) as err:
+            # a numeral of the text that the numeric types cannot hold (float of a 300-digit hexadecimal, a bound of 5000 digits)
+            raise RTAMTException('The specification contains a number that cannot be represented: {}'.format(err))
         return
 
     def last_token(self, text):
